@@ -69,6 +69,7 @@ type c14World struct {
 	backlog  []c14Event
 	known    map[string]bool          // ids enqueued in this case
 	holdNext bool                     // stop the next caller at lock.select
+	holdGotq bool                     // stop the next caller between getQueue and enqueue
 	holds    map[string]chan struct{} // id → release channel of a caller held at lock.select
 	ttlWait  map[string]chan struct{} // id → release channel of a watchdog stopped at lock.ttl
 	ttlAt    map[string]time.Time     // id → when its watchdog's timer fired
@@ -112,13 +113,23 @@ func (w *c14World) handler(name string, args ...any) {
 		ev.flag, _ = args[2].(bool)
 	}
 	w.mu.Lock()
-	if name == "lock.enq" {
+	if name == "lock.enq" || (name == "lock.gotq" && w.holdGotq) {
 		w.known[id] = true
+		w.known["raw|"+raw] = true
 	}
-	known := w.known[id]
+	// (a removal attempt can reach a queue object the caller was never in: the key's queue may have been
+	//  retired and replaced since — such events are matched on the lock id alone)
+	known := w.known[id] || (name == "lock.rm" && w.known["raw|"+raw])
 	var block chan struct{}
 	switch {
 	case !known:
+	case name == "lock.gotq" && w.holdGotq:
+		w.holdGotq = false
+		block = make(chan struct{})
+		w.holds[id] = block
+	case name == "lock.gotq":
+		w.mu.Unlock()
+		return
 	case name == "lock.select" && w.holdNext:
 		w.holdNext = false
 		block = make(chan struct{})
@@ -328,6 +339,56 @@ func (w *c14World) returned(s *c14Sess) bool {
 		}
 		return false
 	}
+}
+
+// startLockAtGotq starts a Lock call and stops it between getQueue and enqueue.
+func (w *c14World) startLockAtGotq(key string, ttl time.Duration, short bool) (*c14Sess, string) {
+	ctx, cancel := context.WithCancel(context.Background())
+	s := &c14Sess{n: len(w.sess) + 1, key: key, short: short, cancel: cancel, fin: make(chan struct{})}
+	w.sess = append(w.sess, s)
+	w.mu.Lock()
+	w.holdGotq = true
+	w.mu.Unlock()
+	w.wg.Add(1)
+	go func() {
+		defer w.wg.Done()
+		defer close(s.fin)
+		_, _ = w.lk.Lock(ctx, key, ttl)
+	}()
+	ev, ok := w.wait(func(e c14Event) bool { return e.name == "lock.gotq" })
+	if !ok {
+		return s, "unexpected-" + ev.name
+	}
+	s.id, s.qid = ev.raw, ev.id
+	s.held = true
+	return s, "gotq"
+}
+
+// continueFromGotq lets it enqueue (possibly on another queue object, after a retry).
+func (w *c14World) continueFromGotq(s *c14Sess) string {
+	s.held = false
+	w.release(w.holds, s.qid)
+	ev, ok := w.wait(func(e c14Event) bool { return e.name == "lock.enq" && e.raw == s.id })
+	if !ok {
+		return "unexpected-" + ev.name
+	}
+	s.qid = ev.id
+	w.byID[s.qid] = s
+	w.byKey[s.key+"|"+s.id] = s
+	if ev, ok = w.waitFor("lock.select", s.qid); !ok {
+		return "unexpected-" + ev.name
+	}
+	ids, ready, _ := lock.VerifSnapshot(w.lk, s.key)
+	for i, id := range ids {
+		if id == s.id && ready[i] {
+			if ev, ok = w.waitFor("lock.acq", s.qid); !ok {
+				return "unexpected-" + ev.name
+			}
+			s.acquired = true
+			return "acq"
+		}
+	}
+	return "wait"
 }
 
 func (w *c14World) release(m map[string]chan struct{}, id string) bool {
@@ -629,9 +690,11 @@ func runC14(in *bufio.Scanner, out *bufio.Writer) {
 				fmt.Fprintln(out, "skip")
 				break
 			}
+			_, _, hadQueue := lock.VerifSnapshot(w.lk, s.key)
 			res := w.safeUnlock(s.key, s.id)
-			if res != "panic" {
-				if ev, ok := w.waitFor("lock.rm", s.qid); !ok {
+			// (a key without a queue in the map is answered without a removal attempt: no hook event)
+			if res != "panic" && hadQueue {
+				if ev, ok := w.waitForRaw("lock.rm", s.id); !ok {
 					res = "unexpected-" + ev.name
 				}
 			}
